@@ -5,6 +5,7 @@ import (
 	"flag"
 	"fmt"
 	"math/rand"
+	"os"
 	"strings"
 	"sync/atomic"
 	"time"
@@ -247,9 +248,28 @@ func ucipos(args []string) {
 				// textual extension of the previous command: same FEN, full-move number with one more digit
 				shape = "fen-number-extension"
 				g = extend(r, gameT{start: cur.start + fmt.Sprint(r.Intn(10))}, r.Intn(3))
-			case x < 92:
+			case x < 89:
 				shape = "ucinewgame"
 				line = "ucinewgame"
+			case x < 93:
+				// an option changes the options and nothing else
+				name := []string{"Hash", "Depth", "Noise"}[r.Intn(3)]
+				val := r.Intn(3)
+				line = fmt.Sprintf("setoption name %v value %v", name, val)
+				sent := s.Send(line, tmo)
+				_, ready := s.Barrier(tmo)
+				ev := out.M{"op": "optcmd", "line": line, "name": name, "n": val, "sent": proj.B2I(sent), "ready": proj.B2I(ready), "dead": proj.B2I(s.Dead),
+					"opts": out.M{}, "state": out.M{}}
+				if ready {
+					o := e.Options()
+					ev["opts"] = out.M{"depth": o.Depth, "hash": o.Hash, "noise": o.Noise}
+					ev["state"] = engineState(e)
+				}
+				w.Emit(ev)
+				if !ready {
+					c = k
+				}
+				continue
 			default:
 				shape = "new"
 				g = extend(r, gameT{start: randomStart()}, r.Intn(8))
@@ -291,6 +311,20 @@ func ucipos(args []string) {
 // engineAPI drives the engine the way the console driver and a library user do: Reset, Move and
 // TakeBack called directly, with Position() and the board read after every call (also after the
 // calls that fail).
+// within runs one engine call; a call that has not returned after 60 s never will (every search the
+// harness starts is instant or honours its context): the run ends with an "api-stuck" event.
+func within(w *out.Writer, kind, arg string, call func()) {
+	done := make(chan struct{})
+	go func() { call(); close(done) }()
+	select {
+	case <-done:
+	case <-time.After(60 * time.Second):
+		w.Emit(out.M{"op": "api-stuck", "kind": kind, "arg": arg})
+		w.Close()
+		os.Exit(0)
+	}
+}
+
 func engineAPI(ctx context.Context, r *rand.Rand, w *out.Writer, n, maxOps int) {
 	all := corpus.All()
 	gg := gen.New(r.Int63(), nil, gen.Flags{})
@@ -343,9 +377,13 @@ func engineAPI(ctx context.Context, r *rand.Rand, w *out.Writer, n, maxOps int) 
 					e.SetHash(n)
 					w.Emit(fill(out.M{"op": "api", "kind": "sethash", "arg": "", "bad": 0, "err": 0, "n": n}))
 				} else if x < 6 {
-					w.Emit(fill(apiAnalyze(ctx, r, e, stub)))
+					var ev out.M
+					within(w, "analyze", "", func() { ev = apiAnalyze(ctx, r, e, stub) })
+					w.Emit(fill(ev))
 				} else {
-					pv, err := e.Halt(ctx)
+					var pv search.PV
+					var err error
+					within(w, "halt", "", func() { pv, err = e.Halt(ctx) })
 					first := []int{}
 					if len(pv.Moves) > 0 {
 						first = proj.Move(pv.Moves[0])
@@ -363,26 +401,38 @@ func engineAPI(ctx context.Context, r *rand.Rand, w *out.Writer, n, maxOps int) 
 					parts[5] = fmt.Sprint(1 + r.Intn(80))
 					f = strings.Join(parts, " ")
 				}
-				emit("reset", f, false, e.Reset(ctx, f))
+				var err error
+				within(w, "reset", f, func() { err = e.Reset(ctx, f) })
+				emit("reset", f, false, err)
 			case x < 13:
 				f := []string{"", "8/8/8/8 w - - 0 1", "not a fen", fen.Initial + " 7"}[r.Intn(4)]
-				emit("reset", f, true, e.Reset(ctx, f))
+				var err error
+				within(w, "reset", f, func() { err = e.Reset(ctx, f) })
+				emit("reset", f, true, err)
 			case x < 45:
 				// take back (also at the root, where nothing must change), often several in a row
 				for j := r.Intn(3); j >= 0; j-- {
-					emit("takeback", "", false, e.TakeBack(ctx))
+					var err error
+					within(w, "takeback", "", func() { err = e.TakeBack(ctx) })
+					emit("takeback", "", false, err)
 				}
 			case x < 52 && len(illegal) > 0:
 				// pseudo-legal but not legal
 				m := illegal[r.Intn(len(illegal))]
-				emit("move", moveText(m), false, e.Move(ctx, moveText(m)))
+				var err error
+				within(w, "move", moveText(m), func() { err = e.Move(ctx, moveText(m)) })
+				emit("move", moveText(m), false, err)
 			case x < 56:
 				t := []string{"e2e5", "a1a1", "h7h8k", "zz", "e7e8q"}[r.Intn(5)]
 				_, perr := board.ParseMove(t)
-				emit("move", t, perr != nil, e.Move(ctx, t))
+				var err error
+				within(w, "move", t, func() { err = e.Move(ctx, t) })
+				emit("move", t, perr != nil, err)
 			default:
 				if len(legal) == 0 {
-					emit("takeback", "", false, e.TakeBack(ctx))
+					var err error
+					within(w, "takeback", "", func() { err = e.TakeBack(ctx) })
+					emit("takeback", "", false, err)
 					continue
 				}
 				var m board.Move
@@ -391,10 +441,12 @@ func engineAPI(ctx context.Context, r *rand.Rand, w *out.Writer, n, maxOps int) 
 				} else {
 					m = gg.Pick(legal)
 				}
-				emit("move", moveText(m), false, e.Move(ctx, moveText(m)))
+				var err error
+				within(w, "move", moveText(m), func() { err = e.Move(ctx, moveText(m)) })
+				emit("move", moveText(m), false, err)
 			}
 		}
-		_, _ = e.Halt(ctx) // leave no search running behind
+		within(w, "halt", "", func() { _, _ = e.Halt(ctx) }) // leave no search running behind
 	}
 }
 
